@@ -4,6 +4,7 @@ import (
 	"fmt"
 	"go/constant"
 	"go/token"
+	"go/types"
 	"sort"
 	"strings"
 
@@ -519,6 +520,64 @@ func checkRuleSetBodies(c *core.Ctx, ign, unign *ssa.Function) {
 		return f
 	}
 	fi, fu := get(ign), get(unign)
+	// accumulation: with a rule list, ignoreRules may replace the rule map only when there is none yet — two directives
+	// of the same form with different lists (falco-ignore-start A ... falco-ignore-start B) must both stay in force
+	{
+		var rulesParam *ssa.Parameter
+		for _, p := range ign.Params {
+			if _, ok := p.Type().Underlying().(*types.Slice); ok {
+				rulesParam = p
+			}
+		}
+		for _, b := range ign.Blocks {
+			for _, in := range b.Instrs {
+				st, ok := in.(*ssa.Store)
+				if !ok {
+					continue
+				}
+				fa, ok := st.Addr.(*ssa.FieldAddr)
+				if !ok || core.FieldOf(fa) == nil || core.FieldOf(fa).Name() != "rules" {
+					continue
+				}
+				if _, ok := st.Val.(*ssa.MakeMap); !ok {
+					continue
+				}
+				// on the empty-list path (len(rules) == 0) a reset is the documented meaning
+				emptyPath, nilGuard := false, false
+				for _, blk := range ign.Blocks {
+					iff, ok := blk.Instrs[len(blk.Instrs)-1].(*ssa.If)
+					if !ok {
+						continue
+					}
+					bo, ok := iff.Cond.(*ssa.BinOp)
+					if !ok {
+						continue
+					}
+					if bo.Op == token.EQL {
+						if k, isK := core.ConstIntValue(bo.Y); isK && k == 0 && rulesParam != nil && core.BackSlice(bo.X)[rulesParam] && core.EdgeDominates(blk, 0, b) {
+							emptyPath = true
+						}
+						if core.IsNilConst(bo.Y) && core.EdgeDominates(blk, 0, b) {
+							for x := range core.BackSlice(bo.X) {
+								if f := core.FieldOf(x); f != nil && f.Name() == "rules" {
+									nilGuard = true
+								}
+							}
+						}
+					}
+				}
+				key := "ignoreRules|fresh-map@" + fmt.Sprint(b.Index)
+				switch {
+				case emptyPath:
+					c.Discharge("ignore.filter", "ignoreRules|reset-on-empty-list", in.Pos(), "a directive without rules replaces the set")
+				case nilGuard:
+					c.Discharge("ignore.filter", "ignoreRules|allocate-when-nil", in.Pos(), "the rule map is only created when there is none")
+				default:
+					c.Report("ignore.filter", key, in.Pos(), "ignoreRules replaces the rule map although rules are listed and a map may already hold rules: an earlier rule-listed directive of the same form is forgotten, its diagnostics reappear in the covered statements")
+				}
+			}
+		}
+	}
 	if fi.mapTrue >= 1 && fi.allTrue >= 1 && fi.del == 0 {
 		c.Discharge("ignore.filter", "ignoreRules|body", ign.Pos(), "rules[r]=true per listed rule; all=true for an empty list")
 	} else {
